@@ -8,8 +8,8 @@ __all__ = ['eval_expr']
 
 class UnitsParser(object):
     # Regular expression for tokenizing units declarations.
-    # TODO: Support evaluation of numbers with e/E exponents.
-    tokenize_re = re.compile(r'-?[.\d]+|[a-zA-Z]+|.')
+    # Numbers may carry an e/E exponent (fmt_in_units writes them with %g).
+    tokenize_re = re.compile(r'-?[.\d]+(?:[eE][-+]?\d+)?|[a-zA-Z]+|.')
 
     def __init__(self, expr, debug=False):
         self.tokens = [tok for tok in re.findall(self.tokenize_re, expr)
@@ -167,7 +167,7 @@ class UnitsParser(object):
                 raise UnitsParseError(
                     "Expected number instead of end of input")
             if self.isnumber(next):
-                if '.' in next:
+                if '.' in next or 'e' in next or 'E' in next:
                     result = ('number', float(next))
                 else:
                     result = ('number', int(next))
